@@ -29,7 +29,7 @@ RULE = (
 ASSUMPTIONS = [
     "the integrator is a mock (vtlib/cxx/shim): naunet's control flow is exercised, not CVODE's numerics",
     "setup-call failures (CVodeInit...) are not in the property's fault alphabet and are not injected",
-    "the CUDA path has no error handling and is out of scope, as are the pybind wrappers",
+    "the cuSPARSE back-end's Solve is executed through the host emulation of CUDA (vtlib/cxx/shim/vt_cuda.h: one cell, one stream, the same scripted CVODE mock); the pybind wrappers are out of scope",
 ]
 RECOV = [-1, -2, -3, -4]
 UNREC = [-5, -7, -22, -27]
@@ -74,7 +74,7 @@ def _path(draw):
 
 @st.composite
 def _case(draw, nscripts):
-    backend = draw(st.sampled_from(["dense", "sparse", "rosenbrock4"]))
+    backend = draw(st.sampled_from(["dense", "dense", "sparse", "sparse", "rosenbrock4", "rosenbrock4", "cusparse"]))
     net = draw(st.sampled_from([0, 1, 2, 3]))
     if backend == "rosenbrock4":
         mx = draw(st.sampled_from([1, 2, 5, 50, 500]))
@@ -177,7 +177,14 @@ def parse_blocks(out):
     return blocks
 
 
-def judge_cvode(s, b, neq, failures, tag):
+def judge_cvode(s, b, neq, failures, tag, sfx=""):
+    n0 = len(failures)
+    _judge_cvode(s, b, neq, failures, tag)
+    if sfx:
+        failures[n0:] = [(k + sfx, m) for k, m in failures[n0:]]
+
+
+def _judge_cvode(s, b, neq, failures, tag):
     dt = s["dt"]
     ab0 = [float((i + 1) * dt / 1024.0) for i in range(neq)]
     cv_calls = [t for t in b["trace"] if t[0] == "C"]
@@ -240,9 +247,15 @@ def check_case(case, tier):
     hashes = set()
     with N.Scratch() as d, N.ThermalPatch(ncase):
         net = N.build_network(ncase)
-        projs = N.render(net, d, backends=[(solver, be, "cpu")], templates="all")
+        projs = N.render(net, d, backends=[(solver, be, "gpu" if be == "cusparse" else "cpu")], templates="all")
         proj = projs[be]
-        exe = build.build_solve_driver(proj)
+        if be == "cusparse":
+            # the rendered cuSPARSE naunet.cpp + kernels against the host emulation of CUDA (one cell, one stream)
+            from ..cxx import cuda
+
+            exe = cuda.build_cuda_solve_driver(proj)
+        else:
+            exe = build.build_solve_driver(proj)
         neq = proj.neq
         text = "".join(script_text(case, s, neq) for s in case["scripts"])
         rc, out, err = build.run_driver(exe, text, proj.path)
@@ -252,7 +265,7 @@ def check_case(case, tier):
         blocks = parse_blocks(out)
         for i, (s, b) in enumerate(zip(case["scripts"], blocks)):
             if solver == "cvode":
-                judge_cvode(s, b, neq, failures, f"{be} script#{i}")
+                judge_cvode(s, b, neq, failures, f"{be} script#{i}", sfx="/cusparse" if be == "cusparse" else "")
                 if any(f < 0 for f, _ in s["cv"]):
                     nfault += 1
             else:
